@@ -11,8 +11,8 @@ from translate import c07_index_sites
 
 MANIFEST = dict(
     technique='Rocq proof (index invariant preserved by every operation, by induction over operation sequences on several maps; search() sound and complete; worldspawn pinned) + ast census of Entity._keys writers and index update sites + vm_compute operation-sequence correspondence + scan oracle on real VMF objects',
-    text='TODO',
-    note='TODO',
+    text='Theorems in Props/C07.v about SM/IndexModel.v (entity list, spawn, per-entity key lists with case-insensitive first-spelling-wins lookup, by_class/by_target as maps from folded key to sets of entities): the invariant "every index entry equals the scan of entities+worldspawn under the current folded classname / targetname (\'\' -> None), the worldspawn has class worldspawn and is listed under it" holds for VMF(), for VMF.parse of any tree, is preserved by every operation (create_ent/add_ent/add_ents/remove_ent, Entity(), copy, []=, del (single and tuple), pop, popitem, setdefault, update, clear, make_unique, export) whatever its arguments and whether or not it raises, hence after every finite history over any number of maps; search() returns exactly the matching entities. The model is of the repaired maintenance code (8 fix commits). It is tied to vmf.py on every run by a fail-closed census (every writer of Entity._keys and every by_class/by_target update site is a modelled function, every index key is folded, every Entity-side add is guarded by membership) and by an operation-sequence correspondence that compares, after every step, error code, entity list, all key lists and both indexes of the model (vm_compute) with real VMF objects; a scan oracle checks the property directly on the implementation after every step, including iteration of the indexes while mutating them.',
+    note='Trusted: Coq kernel + vm_compute, translate/c07_index_sites.py, the hand model SM/IndexModel.v (tied by the correspondence), CPython. str.casefold is a parameter of the model; theorems assume it fixes the empty string and the literals classname/targetname/worldspawn (and is idempotent, for search). Not modelled: nodeid processing (C08), conversion of non-string values (conv_kv), Entity.keys setter (clear+update), termination of the make_unique loop (fuel; invariant holds either way), CopySet iteration (searched: iterate-while-mutating histories never raise and leave the indexes right). Out of domain: add_ent of the worldspawn object or of an entity created for another VMF.',
 )
 
 NAMES = ['a', 'A', 'Ab', 'aB', '', 'a1', 'worldspawn']
@@ -553,8 +553,11 @@ def run(ck: Ck) -> None:
             }
             for fn in sorted({s[0] for s in side.get('index_sites', [])}):
                 obs[f'index_keys_folded_in:{fn}'] = f'keys_folded_in "{fn}"'
-            ck.instance_obligations(['Coq.Lists.List', 'Coq.Strings.String', 'Coq.Bool.Bool', 'SV.Gen.IndexSites_gen', 'SV.SM.IndexCensus'],
-                                    obs, name='census')
+            res = ck.instance_obligations(['Coq.Lists.List', 'Coq.Strings.String', 'Coq.Bool.Bool', 'SV.Gen.IndexSites_gen', 'SV.SM.IndexCensus'],
+                                          obs, name='census')
+            for name, ok in res.items():
+                if not ok:
+                    ck.tie_broken.append(f'census obligation {name} (Gen/IndexSites_gen.v)')
         # a changed hand-modelled function escalates the correspondence budget (never an alarm by itself)
         if side.get('digests') and side['digests'] != MODEL_DIGESTS:
             ck.notes.append(f'hand-modelled functions changed since the model was written ({side["digests"]}): thorough correspondence budget')
